@@ -190,6 +190,7 @@ class Engine:
         self.handling = []           # exceptions being handled (for a bare `raise`)
         self.in_memo = None          # qualname of the memoised function whose body is being interpreted
         self._frame_checked = set()
+        self.iface_real = {}         # interface class -> the library class it models (attributes outside the model: Unsupported)
         self._ctor_assigns_cache = {}
         self.on_obligation = None
         self.assume_proved = True
@@ -1112,6 +1113,10 @@ class Engine:
         k = (obj.cls, name)
         if k in self.iface:
             return IfaceMethod(obj, name, self.iface[k])
+        real = self.iface_real.get(obj.cls)
+        if real is not None and hasattr(real, name):
+            # the library class this interface object stands for HAS the attribute; the model just does not cover it
+            raise Unsupported("%s.%s is not part of the library model %s" % (getattr(real, "__name__", type(real).__name__), name, obj.cls))
         raise PyRaise("AttributeError", ("%s has no attribute %s" % (obj.cls, name),))
 
     def e_Tuple(self, e, fr):
